@@ -76,3 +76,374 @@ Proof.
   unfold doc_items. rewrite write_items_upto_err.
   unfold doc_format. apply render_tokens_spec; [exact Hv|apply tokens_documented].
 Qed.
+
+(** * strftime_terminates *)
+Lemma nth_z_aux_some {A} (s : list A) : forall n b, nth_z_aux s n = Some b -> (n < List.length s)%nat.
+Proof.
+  induction s as [|a s IH]; intros [|n] b H; cbn in *; try discriminate; try lia.
+  apply IH in H. lia.
+Qed.
+Lemma is_char_boundary_le s i : is_char_boundary s i = true -> 0 <= i <= blen s.
+Proof.
+  unfold is_char_boundary, blen. destruct (i =? 0) eqn:E0; [lia|].
+  destruct (i <? 0) eqn:E1; [discriminate|].
+  destruct (nth_z_aux s (Z.to_nat i)) as [b|] eqn:En.
+  - apply nth_z_aux_some in En. lia.
+  - lia.
+Qed.
+Lemma str_from_len s i r : str_from s i = Val r -> 0 <= i <= blen s /\ blen r = blen s - i.
+Proof.
+  unfold str_from. destruct (is_char_boundary s i) eqn:E; [|discriminate].
+  intros H. injection H as <-. apply is_char_boundary_le in E. split; [exact E|].
+  unfold blen in *. rewrite skipn_length. lia.
+Qed.
+Lemma len_utf8_pos c : 1 <= len_utf8 c <= 4.
+Proof. unfold len_utf8. destruct (c <? 128), (c <? 2048), (c <? 65536); lia. Qed.
+Lemma next_char_nonempty r x : next_char r = Some x -> 1 <= blen r.
+Proof. destruct r; [discriminate|]. unfold blen. cbn [List.length]. lia. Qed.
+
+Section Terminates.
+Variable lenient : bool.
+Variable original : bytes.
+Hypothesis Hcons : SF_ERROR_CONSUMES = true \/ lenient = true.
+Hypothesis Horig : 1 <= blen original.
+
+Definition shorter (rm : bytes) : Prop := blen rm < blen original.
+Definition el_ok (el : Z) : Prop := lenient = true -> 1 <= el.
+
+Lemma sf_error_inv el ch el' rm it :
+  (lenient = true -> match ch with Some c => 1 + len_utf8 c <= el | None => 1 <= el end) ->
+  sf_error lenient original el ch = Val (el', (rm, it)) -> shorter rm /\ el_ok el'.
+Proof.
+  intros Hel H. unfold sf_error in H. destruct lenient eqn:El; cbn [negb] in H.
+  - specialize (Hel eq_refl).
+    assert (Hs : exists e, (match ch with Some c => sub_usize el (len_utf8 c) | None => Val el end) = Val e
+                           /\ 1 <= e).
+    { destruct ch as [c|].
+      - unfold sub_usize, chk in *. destruct (in_usize (el - len_utf8 c)); [|discriminate].
+        exists (el - len_utf8 c). split; [reflexivity|lia].
+      - exists el. split; [reflexivity|lia]. }
+    destruct Hs as (e & He & He1). rewrite He in H. cbv [bind] in H.
+    destruct (str_from original e) as [r| |] eqn:Er; try discriminate.
+    destruct (str_to original e); try discriminate.
+    injection H as <- <- <-. apply str_from_len in Er. unfold shorter, el_ok. split; [lia|intros _; lia].
+  - destruct Hcons as [Hc|Hc]; [|discriminate]. rewrite Hc in H. injection H as <- <- <-.
+    unfold shorter, el_ok, blen. cbn [List.length]. split; [unfold blen in Horig; lia|intros Hl; congruence].
+Qed.
+
+Lemma sf_next_char_inv remainder el res :
+  blen remainder <= blen original -> el_ok el ->
+  sf_next_char lenient original remainder el = Val res ->
+  match res with
+  | inl (rm, _) => shorter rm
+  | inr (x, rm, el') => blen rm < blen remainder /\ (lenient = true -> el' = el + len_utf8 x /\ 1 <= el)
+  end.
+Proof.
+  intros Hr Hel H. unfold sf_next_char in H.
+  destruct (next_char remainder) as [x|] eqn:Ex.
+  - destruct (str_from remainder (len_utf8 x)) as [rm| |] eqn:Es; try discriminate. cbv [bind] in H.
+    apply str_from_len in Es. pose proof (len_utf8_pos x).
+    destruct lenient eqn:El.
+    + unfold add_usize, chk in H. destruct (in_usize (el + len_utf8 x)); [|discriminate].
+      injection H as <-. split; [lia|]. intros _. split; [reflexivity|apply Hel; exact El].
+    + injection H as <-. split; [lia|intros Hl; congruence].
+  - destruct (sf_error lenient original el None) as [[el' [rm it]]| |] eqn:Ee; try discriminate.
+    cbv [bind] in H. injection H as <-.
+    apply sf_error_inv in Ee; [exact (proj1 Ee)|]. intros Hl. exact (Hel Hl).
+Qed.
+
+(* queued tails occurring in an arm *)
+Fixpoint arm_queues (a : sf_arm) : list (list Item) :=
+  match a with
+  | ArmQueue _ t => [t]
+  | ArmNext l => (fix go (l : list (Z * sf_arm)) : list (list Item) :=
+                    match l with [] => [] | (_, sub) :: r => arm_queues sub ++ go r end) l
+  | _ => []
+  end.
+
+Definition arm_res_ok (a : sf_arm) (q : list Item) (res : arm_res) : Prop :=
+  match res with
+  | ARet (rm, _) q' => shorter rm /\ q' = q
+  | ACont _ rm el' q' => shorter rm /\ el_ok el' /\ (q' = q \/ In q' (arm_queues a))
+  end.
+
+Lemma run_arm_inv alt : forall a remainder el q res,
+  shorter remainder -> el_ok el ->
+  run_arm lenient alt original a remainder el q = Val res -> arm_res_ok a q res.
+Proof.
+  fix IH 1. intros a remainder el q res Hr Hel H. destruct a as [i|h t|al pl|l|l]; cbn [run_arm] in H.
+  - injection H as <-. cbn. auto.
+  - injection H as <-. cbn. auto.
+  - injection H as <-. cbn. auto.
+  - (* prefixes *)
+    revert H. induction l as [|[p it] r IHl]; intros H.
+    + destruct (sf_error lenient original el None) as [[el' [rm it]]| |] eqn:Ee; try discriminate.
+      cbv [bind] in H. injection H as <-.
+      apply sf_error_inv in Ee; [|intros Hl; exact (Hel Hl)]. cbn. destruct Ee. auto.
+    + destruct (strip_prefix p remainder).
+      * destruct (str_from remainder (blen p)) as [rm| |] eqn:Es; try discriminate. cbv [bind] in H.
+        injection H as <-. apply str_from_len in Es. cbn. unfold shorter in *. split; [lia|auto].
+      * apply IHl. exact H.
+  - (* next *)
+    destruct (sf_next_char lenient original remainder el) as [n| |] eqn:En; try discriminate.
+    cbv [bind] in H. apply sf_next_char_inv in En; [|unfold shorter in Hr; lia|exact Hel].
+    destruct n as [[rm it]|[[x rm] el']].
+    + injection H as <-. cbn. auto.
+    + destruct En as [Hrm Hel'].
+      assert (Hsh : shorter rm) by (unfold shorter in *; lia).
+      assert (Hel2 : el_ok el') by (intros Hl; destruct (Hel' Hl) as [-> ?]; pose proof (len_utf8_pos x); lia).
+      revert H. cbn [arm_queues]. induction l as [|[c sub] r IHl]; intros H.
+      * destruct (sf_error lenient original el' (Some x)) as [[el'' [rm' it]]| |] eqn:Ee; try discriminate.
+        cbv [bind] in H. injection H as <-.
+        apply sf_error_inv in Ee; [|intros Hl; destruct (Hel' Hl) as [-> ?]; lia]. cbn. destruct Ee. auto.
+      * destruct (x =? c).
+        -- apply IH in H; [|exact Hsh|exact Hel2]. unfold arm_res_ok in *.
+           destruct res as [[rm' it'] q'|it' rm' el'' q']; [exact H|].
+           destruct H as (A & B & [C|C]); repeat split; auto. right. apply in_or_app. left. exact C.
+        -- apply IHl in H. unfold arm_res_ok in *.
+           destruct res as [[rm' it'] q'|it' rm' el'' q']; [exact H|].
+           destruct H as (A & B & [C|C]); repeat split; auto. right. apply in_or_app. right. exact C.
+Qed.
+End Terminates.
+
+Lemma assoc_in {A} (k : Z) (l : list (Z * A)) v : assoc k l = Some v -> In (k, v) l.
+Proof.
+  induction l as [|[k' v'] r IH]; cbn [assoc]; [discriminate|].
+  destruct (k =? k') eqn:E; intros H.
+  - injection H as <-. apply Z.eqb_eq in E. subst. left. reflexivity.
+  - right. apply IH. exact H.
+Qed.
+
+Definition queue_ok (q q' : list Item) : Prop :=
+  q' = q \/ exists c arm, In (c, arm) SF_ARMS /\ In q' (arm_queues arm).
+
+Lemma parse_spec_inv lenient q original rm it q' :
+  SF_ERROR_CONSUMES = true \/ lenient = true -> 1 <= blen original ->
+  parse_spec lenient q original = Val (Some (rm, it), q') ->
+  blen rm < blen original /\ queue_ok q q'.
+Proof.
+  intros Hcons Horig H. unfold parse_spec in H.
+  destruct (str_from original 1) as [rem0| |] eqn:E0; try discriminate. cbv [bind] in H.
+  apply str_from_len in E0.
+  assert (Hel0 : exists el0, (if lenient then add_usize 0 1 else Val 0) = Val el0 /\ (lenient = true -> el0 = 1)).
+  { destruct lenient; [exists 1|exists 0]; split; auto; discriminate. }
+  destruct Hel0 as (el0 & Eel & Hel0). rewrite Eel in H. cbv [bind] in H.
+  destruct (sf_next_char lenient original rem0 el0) as [n| |] eqn:En; try discriminate.
+  apply (sf_next_char_inv lenient original Hcons Horig) in En;
+    [|lia|intros Hl; rewrite (Hel0 Hl); lia].
+  destruct n as [[rm1 it1]|[[spec rem1] el1]].
+  { injection H as <- <- <-. split; [exact En|left; reflexivity]. }
+  destruct En as [Hrem1 Hel1].
+  (* the optional second character *)
+  set (n2 := if is_some (assoc spec SF_PAD_OVERRIDE) || (spec =? SF_ALT_CHAR)
+             then sf_next_char lenient original rem1 el1 else Val (inr (spec, rem1, el1))) in H.
+  assert (Hn2 : forall r, n2 = Val r ->
+            match r with
+            | inl (rm, _) => shorter original rm
+            | inr (x, rm, el) => shorter original rm /\ (lenient = true -> 1 + len_utf8 x <= el)
+            end).
+  { intros r Hr. unfold n2 in Hr.
+    destruct (is_some (assoc spec SF_PAD_OVERRIDE) || (spec =? SF_ALT_CHAR)).
+    - apply (sf_next_char_inv lenient original Hcons Horig) in Hr;
+        [|lia|intros Hl; destruct (Hel1 Hl) as [-> ?]; pose proof (len_utf8_pos spec); lia].
+      destruct r as [[rm2 it2]|[[x rm2] el2]]; [exact Hr|].
+      destruct Hr as [HA HB]. split; [unfold shorter; lia|].
+      intros Hl. destruct (HB Hl) as [-> ?]. lia.
+    - injection Hr as <-. split; [unfold shorter; lia|].
+      intros Hl. destruct (Hel1 Hl) as [-> ?]. rewrite (Hel0 Hl). lia. }
+  destruct n2 as [r2| |]; try discriminate. cbv [bind] in H. specialize (Hn2 r2 eq_refl).
+  destruct r2 as [[rm2 it2]|[[spec2 rem2] el2]].
+  { injection H as <- <- <-. split; [exact Hn2|left; reflexivity]. }
+  destruct Hn2 as [Hsh2 Hel2].
+  assert (Herr : forall el' rm' it', sf_error lenient original el2 (Some spec2) = Val (el', (rm', it')) ->
+                   shorter original rm' /\ el_ok lenient el').
+  { intros el' rm' it' He. apply (sf_error_inv lenient original Hcons Horig) in He; [exact He|exact Hel2]. }
+  destruct ((spec =? SF_ALT_CHAR) && negb (contains_char SF_HAVE_ALTERNATES spec2)).
+  { destruct (sf_error lenient original el2 (Some spec2)) as [[el' [rm' it']]| |] eqn:Ee; try discriminate.
+    cbv [bind] in H. injection H as <- <- <-. split; [exact (proj1 (Herr _ _ _ eq_refl))|left; reflexivity]. }
+  set (ar := match assoc spec2 SF_ARMS with
+             | Some arm => run_arm lenient (spec =? SF_ALT_CHAR) original arm rem2 el2 q
+             | None => match sf_error lenient original el2 (Some spec2) with
+                       | Val (el, (rm, it)) => Val (ACont it rm el q)
+                       | Panic => Panic | OutOfFuel => OutOfFuel end
+             end) in H.
+  assert (Har : forall res, ar = Val res ->
+            match res with
+            | ARet (rm, _) q' => shorter original rm /\ q' = q
+            | ACont _ rm el' q' => shorter original rm /\ el_ok lenient el' /\ queue_ok q q'
+            end).
+  { intros res Hres. unfold ar in Hres. destruct (assoc spec2 SF_ARMS) as [arm|] eqn:Ea.
+    - apply (run_arm_inv lenient original Hcons Horig) in Hres;
+        [|exact Hsh2|intros Hl; specialize (Hel2 Hl); pose proof (len_utf8_pos spec2); lia].
+      unfold arm_res_ok in Hres. destruct res as [[rm' it'] q''|it' rm' el' q'']; [exact Hres|].
+      destruct Hres as (HA & HB & [HC|HC]); repeat split; auto; [left; exact HC|].
+      right. exists spec2, arm. split; [apply assoc_in; exact Ea|exact HC].
+    - destruct (sf_error lenient original el2 (Some spec2)) as [[el' [rm' it']]| |] eqn:Ee; try discriminate.
+      cbv [bind] in Hres. injection Hres as <-. destruct (Herr _ _ _ eq_refl). repeat split; auto. left. reflexivity. }
+  destruct ar as [res| |]; try discriminate. cbv [bind] in H. specialize (Har res eq_refl).
+  destruct res as [[rm' it'] q''|item rem3 el3 q''].
+  { destruct Har as [HA ->]. injection H as <- <- <-. split; [exact HA|left; reflexivity]. }
+  destruct Har as (HA & HB & HC).
+  assert (Herr2 : forall x rm' it', sf_error lenient original el3 None = Val (x, (rm', it')) -> shorter original rm').
+  { intros x rm' it' He. apply (sf_error_inv lenient original Hcons Horig) in He; [exact (proj1 He)|exact HB]. }
+  destruct (assoc spec SF_PAD_OVERRIDE) as [new_pad|].
+  - destruct item; try (destruct (sf_error lenient original el3 None) as [[x [rm' it']]| |] eqn:Ee; try discriminate;
+                        cbv [bind] in H; injection H as <- <- <-; split; [exact (Herr2 _ _ _ eq_refl)|exact HC]).
+    destruct (is_nil q'').
+    + injection H as <- <- <-. split; [exact HA|exact HC].
+    + destruct (sf_error lenient original el3 None) as [[x [rm' it']]| |] eqn:Ee; try discriminate.
+      cbv [bind] in H. injection H as <- <- <-. split; [exact (Herr2 _ _ _ eq_refl)|exact HC].
+  - injection H as <- <- <-. split; [exact HA|exact HC].
+Qed.
+
+(* every parse step consumes at least one byte of the input *)
+Theorem parse_next_item_consumes : forall lenient q r rm it q',
+  SF_ERROR_CONSUMES = true \/ lenient = true ->
+  parse_next_item lenient q r = Val (Some (rm, it), q') ->
+  blen rm < blen r /\ queue_ok q q'.
+Proof.
+  intros lenient q r rm it q' Hcons H. unfold parse_next_item in H.
+  destruct (next_char r) as [c0|] eqn:Ec; [|discriminate].
+  pose proof (next_char_nonempty _ _ Ec) as Hne.
+  destruct (c0 =? 37).
+  { apply parse_spec_inv in H; auto. }
+  assert (Hrun : forall nextspec mk,
+            (let* _ := rassert (0 <? nextspec) in
+             let* it := str_to r nextspec in
+             let* rm := str_from r nextspec in
+             Val (Some (rm, mk it), q)) = Val (Some (rm, it), q') -> blen rm < blen r /\ queue_ok q q').
+  { intros nextspec mk Hx. unfold rassert in Hx. destruct (0 <? nextspec) eqn:Ep; [|discriminate].
+    cbv [bind] in Hx. destruct (str_to r nextspec); try discriminate.
+    destruct (str_from r nextspec) as [rm'| |] eqn:Es; try discriminate.
+    injection Hx as <- _ <-. apply str_from_len in Es. split; [lia|left; reflexivity]. }
+  destruct (is_whitespace c0); eapply Hrun; exact H.
+Qed.
+
+Lemma table_queues_short :
+  Forall (fun ca => Forall (fun t => (List.length t <= 12)%nat) (arm_queues (snd ca))) SF_ARMS.
+Proof. unfold SF_ARMS. repeat (apply Forall_cons; [cbn; repeat constructor; lia|]). apply Forall_nil. Qed.
+Lemma queue_ok_short q' : queue_ok [] q' -> (List.length q' <= 12)%nat.
+Proof.
+  intros [->|(c & arm & Hin & Hq)]; [cbn; lia|].
+  pose proof (proj1 (Forall_forall _ _) table_queues_short _ Hin) as H. cbn [snd] in H.
+  exact (proj1 (Forall_forall _ _) H _ Hq).
+Qed.
+
+(* no function of the iterator contains a fuel-bounded loop *)
+Definition nofuel {A} (x : R A) : Prop := x <> OutOfFuel.
+Lemma nofuel_val {A} (a : A) : nofuel (Val a). Proof. discriminate. Qed.
+Lemma nofuel_panic {A} : nofuel (@Panic A). Proof. discriminate. Qed.
+Lemma nofuel_bind {A A2} (x : R A) (f : A -> R A2) : nofuel x -> (forall a, nofuel (f a)) -> nofuel (bind x f).
+Proof. intros Hx Hf. destruct x; cbn [bind]; [apply Hf|discriminate|exfalso; apply Hx; reflexivity]. Qed.
+Lemma nofuel_chk inr z : nofuel (chk inr z). Proof. unfold chk. destruct (inr z); discriminate. Qed.
+Lemma nofuel_str_from s i : nofuel (str_from s i).
+Proof. unfold str_from. destruct (is_char_boundary s i); discriminate. Qed.
+Lemma nofuel_str_to s i : nofuel (str_to s i).
+Proof. unfold str_to. destruct (is_char_boundary s i); discriminate. Qed.
+Ltac nf :=
+  repeat first
+    [ apply nofuel_val | apply nofuel_panic | apply nofuel_chk | apply nofuel_str_from | apply nofuel_str_to
+    | assumption
+    | apply nofuel_bind; [|intros]
+    | match goal with
+      | |- nofuel (match ?x with _ => _ end) => destruct x
+      | |- nofuel (if ?x then _ else _) => destruct x
+      | |- nofuel (let (_, _) := ?x in _) => destruct x
+      end ].
+Lemma nofuel_sf_error l o el ch : nofuel (sf_error l o el ch).
+Proof. unfold sf_error, sub_usize. nf. Qed.
+Lemma nofuel_sf_next_char l o r el : nofuel (sf_next_char l o r el).
+Proof. unfold sf_next_char, add_usize. pose proof (nofuel_sf_error l o el None). nf. Qed.
+Lemma nofuel_run_arm l alt o : forall a r el q, nofuel (run_arm l alt o a r el q).
+Proof.
+  fix IH 1. intros a r el q. destruct a as [i|h t|al pl|pre|nx]; cbn [run_arm]; try apply nofuel_val.
+  - induction pre as [|[p it] rest IHp].
+    + pose proof (nofuel_sf_error l o el None). nf.
+    + destruct (strip_prefix p r); [nf|exact IHp].
+  - apply nofuel_bind; [apply nofuel_sf_next_char|]. intros [[rm it]|[[x rm] el']]; [nf|].
+    induction nx as [|[c sub] rest IHn].
+    + pose proof (nofuel_sf_error l o el' (Some x)). nf.
+    + destruct (x =? c); [apply IH|exact IHn].
+Qed.
+Lemma nofuel_parse_spec l q o : nofuel (parse_spec l q o).
+Proof.
+  unfold parse_spec, add_usize.
+  apply nofuel_bind; [nf|intros rem0]. apply nofuel_bind; [nf|intros el0].
+  apply nofuel_bind; [apply nofuel_sf_next_char|]. intros [[rm it]|[[spec rem1] el1]]; [nf|].
+  apply nofuel_bind; [destruct (_ || _); [apply nofuel_sf_next_char|nf]|].
+  intros [[rm it]|[[spec2 rem2] el2]]; [nf|].
+  destruct (_ && _).
+  - pose proof (nofuel_sf_error l o el2 (Some spec2)). nf.
+  - apply nofuel_bind.
+    + destruct (assoc spec2 SF_ARMS); [apply nofuel_run_arm|].
+      pose proof (nofuel_sf_error l o el2 (Some spec2)). nf.
+    + intros [res q'|item rem3 el3 q']; [nf|].
+      pose proof (nofuel_sf_error l o el3 None). nf.
+Qed.
+Lemma nofuel_parse_next_item l q r : nofuel (parse_next_item l q r).
+Proof.
+  unfold parse_next_item, rassert. pose proof (nofuel_parse_spec l q r). nf.
+Qed.
+Lemma nofuel_sf_next st : nofuel (sf_next st).
+Proof.
+  unfold sf_next. pose proof (nofuel_parse_next_item (sf_lenient st) [] (sf_remainder st)). nf.
+Qed.
+
+(* the measure: 13 per input byte left, 1 per queued item *)
+Definition sf_measure (st : sfi) : Z := 13 * blen (sf_remainder st) + Z.of_nat (List.length (sf_queue st)).
+
+Lemma sf_next_decreases st it st' :
+  SF_ERROR_CONSUMES = true \/ sf_lenient st = true ->
+  sf_next st = Val (Some it, st') ->
+  sf_measure st' < sf_measure st /\ sf_lenient st' = sf_lenient st.
+Proof.
+  intros Hcons H. unfold sf_next in H. destruct st as [r q l]. cbn [sf_queue sf_remainder sf_lenient] in *.
+  destruct q as [|i q].
+  - destruct (parse_next_item l [] r) as [[o q']| |] eqn:Ep; try discriminate. cbv [bind] in H.
+    destruct o as [[rm it']|]; [|discriminate]. injection H as <- <-.
+    apply parse_next_item_consumes in Ep; [|exact Hcons]. destruct Ep as [Hlen Hq].
+    apply queue_ok_short in Hq. unfold sf_measure. cbn [sf_queue sf_remainder sf_lenient List.length].
+    split; [lia|reflexivity].
+  - injection H as <- <-. unfold sf_measure. cbn [sf_queue sf_remainder sf_lenient List.length].
+    split; [lia|reflexivity].
+Qed.
+
+(** strftime_terminates: with [fuel] above the measure, draining the iterator never runs out of
+    fuel and never reports "still yielding": it ends (or traps) after at most [measure] items,
+    i.e. at most 13 * (bytes of input) items for a fresh iterator *)
+Theorem sf_take_terminates : forall fuel st acc,
+  SF_ERROR_CONSUMES = true \/ sf_lenient st = true ->
+  sf_measure st < Z.of_nat fuel ->
+  match sf_take fuel st acc with
+  | Val (Some l) => Z.of_nat (List.length l) <= Z.of_nat (List.length acc) + sf_measure st
+  | Val None => False
+  | Panic => True
+  | OutOfFuel => False
+  end.
+Proof.
+  induction fuel as [|f IH]; intros st acc Hcons Hm.
+  - unfold sf_measure, blen in Hm. lia.
+  - cbn [sf_take]. pose proof (nofuel_sf_next st) as Hnf.
+    destruct (sf_next st) as [[o st']| |] eqn:En; cbv [bind]; try exact I; [|exact (Hnf eq_refl)].
+    destruct o as [it|].
+    + destruct (sf_next_decreases _ _ _ Hcons En) as [Hd Hl].
+      specialize (IH st' (it :: acc) ltac:(rewrite Hl; exact Hcons) ltac:(lia)).
+      destruct (sf_take f st' (it :: acc)) as [[l|]| |]; auto. cbn [List.length] in IH. lia.
+    + rewrite rev_length. unfold sf_measure, blen. lia.
+Qed.
+
+Theorem strftime_terminates : forall s lenient,
+  SF_ERROR_CONSUMES = true \/ lenient = true ->
+  match sf_take (S (sf_bound s)) (mk_sfi s [] lenient) [] with
+  | Val (Some l) => Z.of_nat (List.length l) <= 13 * blen s
+  | Val None => False
+  | Panic => True
+  | OutOfFuel => False
+  end.
+Proof.
+  intros s lenient Hcons.
+  pose proof (sf_take_terminates (S (sf_bound s)) (mk_sfi s [] lenient) [] Hcons) as H.
+  unfold sf_measure in H. cbn [sf_remainder sf_queue List.length] in H.
+  assert (Hf : 13 * blen s + Z.of_nat 0 < Z.of_nat (S (sf_bound s))) by (unfold sf_bound, blen; lia).
+  specialize (H Hf). destruct (sf_take _ _ _) as [[l|]| |]; auto. change (Z.of_nat 0) with 0 in H. lia.
+Qed.
